@@ -30,9 +30,10 @@ type Query @tag @other {
   b: E @other @deprecated(reason: "why")
   multi: Int @deprecated(reason: "two\\nlines\\n")
   lead: Int @deprecated(reason: "\\n  indented\\n  lines")
+  empty: Int @deprecated(reason: "")
   c(i: In): Date
 }
-enum E { A @tag @deprecated B }
+enum E { A @tag @deprecated B C @deprecated(reason: "") }
 input In { f: Int = 2 @tag }
 '''
 
@@ -68,12 +69,17 @@ def code_schema():
     email = RegexType("Email", r"^[^@]+@[^@]+$", description="an address")
     sub_object = SubObject("Sub", [Field("x", Int, description="LS\u2028PS\u2029NEL\u0085 are not line terminators")],
                            description="first\u2028still first\nsecond\u0085still second")
-    sub_enum = SubEnum("Shade", [("DARK", "d"), ("LIGHT", "l")])
+    from py_gql.schema import EnumValue
+    sub_enum = SubEnum("Shade", [("DARK", "d"), ("LIGHT", "l"), EnumValue("GONE", "x", deprecation_reason=""), EnumValue("OLD", "o", deprecation_reason="No longer supported")])
     named = InterfaceType("Named", [Field("name", String)], resolve_type=lambda *a: "Dog")
     dog = ObjectType("Dog", [Field("name", String), Field("mood", color, deprecation_reason="moody"),
                              Field("old", String, deprecation_reason="first line\n  second, indented\n")], interfaces=[named], description="a dog\nwith two lines")
     pet = UnionType("Pet", [dog], resolve_type=lambda *a: "Dog")
+    side = EnumType("Side", [("LEFT", "RIGHT"), ("RIGHT", "LEFT"), ("UP", "UP"), ("DOWN", "up")])
+    sided = InputObjectType("Sided", [InputField("sd", side, default_value="LEFT"), InputField("sl", ListType(side), default_value=["RIGHT", "UP", "up"])])
     query = ObjectType("Query", [
+        Field("side", side, args=[Argument("s", side, default_value="RIGHT"), Argument("ss", NonNullType(ListType(NonNullType(side))), default_value=["LEFT", "RIGHT"]),
+                                  Argument("o", sided, default_value={"sd": "RIGHT", "sl": ["LEFT"]})]),
         Field("f", String, description="desc", deprecation_reason="old", args=[
             Argument("a", inner, default_value={"n": 1, "c": "g", "s": "x", "l": [], "again": {"n": 2, "c": 1, "s": "", "l": [3], "again": None, "cs": []}, "cs": [(0, 0, 255)]}),
             Argument("e", NonNullType(ListType(color)), default_value=[1, "g"]),
@@ -88,7 +94,7 @@ def code_schema():
         Field("raw", raw, args=[Argument("r1", raw, default_value=1), Argument("r2", raw, default_value=True), Argument("r3", raw, default_value=1.0),
                                 Argument("r4", ListType(raw), default_value=[0, False, 0.0]), Argument("r5", raw, default_value=False),
                                 Argument("r6", raw, default_value=0)]),
-        Field("email", email, args=[Argument("like", email, default_value="a@b")]), Field("sub", ListType(sub_object)), Field("shade", sub_enum),
+        Field("email", email, args=[Argument("like", email, default_value="a@b")]), Field("sub", ListType(sub_object)), Field("shade", sub_enum), Field("e0", String, deprecation_reason=""),
         Field("deep7", NonNullType(ListType(NonNullType(ListType(NonNullType(ListType(NonNullType(String)))))))),
     ])
     return Schema(query)
@@ -155,9 +161,30 @@ def first_diff(a, b, path=""):
     return None if a == b else "%s: %r vs %r" % (path, a, b)
 
 
+ROOT_SDL = [
+    "schema { query: Query mutation: Subscription } type Query { a: Int } type Subscription { b: Int }",
+    "schema { query: Mutation } type Mutation { a: Int }",
+    "schema { query: Subscription subscription: Query } type Query { a: Int } type Subscription { b: Int }",
+    "schema { query: Query subscription: Mutation } type Query { a: Int } type Mutation { b: Int }",
+    "schema { query: Mutation mutation: Query subscription: Subscription } type Query { a: Int } type Mutation { b: Int } type Subscription { c: Int }",
+    "type Query { a: Int } type Mutation { b: Int } type Subscription { c: Int }",
+    "schema { query: Query } type Query { a: Int } type Mutation { b: Int }",
+    "schema { query: Q mutation: Mutation } type Q { a: Int } type Mutation { b: Int }",
+]
+
+
+def roots_code_schema():
+    from py_gql.schema import Field, Int, ObjectType, Schema
+    return Schema(query_type=ObjectType("Subscription", [Field("a", Int)]), mutation_type=ObjectType("Query", [Field("b", Int)]))
+
+
 def schema_sources():
     out = [("base", lambda: __import__("py_gql").build_schema(schemas.BASE_SDL)), ("code", code_schema),
            ("directives", lambda: __import__("py_gql").build_schema(DIRECTIVE_SDL))]
+    # root types whose names are the conventional names of OTHER operations (the schema block is then not redundant), and the redundant cases
+    for i, sdl in enumerate(ROOT_SDL):
+        out.append(("roots%d" % i, (lambda s: (lambda: __import__("py_gql").build_schema(s)))(sdl)))
+    out.append(("roots-code", roots_code_schema))
     for i, sdl in enumerate(c11.EXTRA_VALID):
         out.append(("extra%d" % i, (lambda s: (lambda: __import__("py_gql").build_schema(s)))(sdl)))
     return out
